@@ -11,7 +11,7 @@ import time
 CFGS = ["std", "alloc", "none"]
 
 
-def one_shard(drv, profile, tier, seed, shard, nshards):
+def one_shard(drv, profile, tier, seed, shard, nshards, with_both=False):
     logs = {}
     reports = {}
     for cfg in CFGS:
@@ -19,7 +19,18 @@ def one_shard(drv, profile, tier, seed, shard, nshards):
         j = drv.run_shard("C18", profile, cfg, tier, seed, shard, nshards, extra_env={"AISMON_LOG": logp})
         logs[cfg] = logp
         reports[cfg] = j
-    res = {"shard": shard, "profile": profile, "reports": reports, "diff": None, "dumps": {}}
+    res = {"shard": shard, "profile": profile, "reports": reports, "diff": None, "dumps": {}, "diff_both": None}
+    if with_both:
+        logb = os.path.join(drv.WORK, "c18-%s-both-%d.log" % (profile, shard))
+        jb = drv.run_shard("C18", profile, "both", tier, seed, shard, nshards, extra_env={"AISMON_LOG": logb})
+        if jb["rc"] == 0 and reports["std"]["rc"] == 0 and reports["none"]["rc"] == 0:
+            # same checker, with the std+alloc build in the place of the alloc build
+            p = subprocess.run([drv.binpath(profile, "std"), "cfgdiff", logs["std"], logb, logs["none"]],
+                               env=drv.ENV, stdout=subprocess.PIPE, stderr=subprocess.PIPE)
+            if p.returncode == 0:
+                res["diff_both"] = json.loads(p.stdout.decode())
+        if os.path.exists(logb):
+            os.remove(logb)
     if all(reports[c]["rc"] == 0 for c in CFGS):
         p = subprocess.run([drv.binpath(profile, "std"), "cfgdiff", logs["std"], logs["alloc"], logs["none"]],
                            env=drv.ENV, stdout=subprocess.PIPE, stderr=subprocess.PIPE)
@@ -57,14 +68,18 @@ def run(drv, tier, seed, t0):
         drv.write_evidence(pid, tier, seed, {"evaluations": 0, "distinct_nontrivial": 0, "rule": drv.RULES[pid], "samples": []}, time.time() - t0, 0)
         return 2
     nshards = drv.NCPU
+    # supplementary: std and alloc enabled together (cargo feature unification). Outside the three
+    # configurations the property names, so a build failure of it is only noted.
+    okb, _msgb = drv.build_all([(p, "both") for p in profiles])
     results = []
     with cf.ThreadPoolExecutor(max_workers=max(1, drv.NCPU // 2)) as ex:
-        futs = [ex.submit(one_shard, drv, p, tier, seed, s, nshards) for p in profiles for s in range(nshards)]
+        futs = [ex.submit(one_shard, drv, p, tier, seed, s, nshards, okb) for p in profiles for s in range(nshards)]
         for f in futs:
             results.append(f.result())
     violations, inconclusive = [], []
     jobs = []
     compared = exempt = unjudged = 0
+    both_compared = 0
     diffclasses = {}
     for r in results:
         for cfg in CFGS:
@@ -84,6 +99,15 @@ def run(drv, tier, seed, t0):
             if all(r["reports"][c]["rc"] == 0 for c in CFGS):
                 inconclusive.append("cfgdiff failed on shard %d: %s" % (r["shard"], r.get("differr", "")))
             continue
+        db = r.get("diff_both")
+        if db is not None:
+            both_compared += db["compared"]
+            for v in db["violations"]:
+                if v["sig"] == "std-vs-alloc":
+                    violations.append({"prop": pid, "sig": "std-vs-std+alloc", "detail": v["detail"].replace("alloc", "std+alloc"),
+                                       "replay": {"kind": "cfgdiff", "call_index": v["index"], "shard": r["shard"], "nshards": nshards, "note": "build with features std and alloc together"},
+                                       "cfg": "std+both", "profile": r["profile"], "count": 1})
+                    break
         compared += d["compared"]
         exempt += d["exempt_must_err"]
         unjudged += d["unjudged"]
@@ -107,6 +131,7 @@ def run(drv, tier, seed, t0):
     cov["calls_where_noalloc_must_reject"] = exempt
     cov["calls_unjudged_after_capacity_rejection"] = unjudged
     cov["diff_classes"] = diffclasses
+    cov["std_plus_alloc_build"] = ({"calls_compared_with_std": both_compared} if okb else "not built (supplementary configuration; not a verdict)")
     cov["distinct_nontrivial"] = len(diffclasses)
     cov["evaluations"] = compared
     if compared == 0:
